@@ -245,18 +245,24 @@ def run(ctx):
                 ctx.fail(v, {'real_transport': r['meta']}, detail={'event_index': at, 'events': r['ev'][:at]},
                          signature={'transport': r['meta']['transport'], 'unicode': r['meta']['unicode']})
         uniq_real = routs
+        with Pool(12) as pool:
+            nint = CT.interleaved(ctx, pool)
+        ctx.note('%d single-call interleavings of the PtyRead state graph replayed at the expect level on a real pty child: EOF only with all output in before, EOF again afterwards' % nint)
     st_self = self_test(ctx, uniq, verdicts)
     ctx.note('binding self-test: ' + ', '.join('%s -> %s' % kv for kv in sorted(st_self.items())))
     # "every call's outcome equals that of the naive procedure" (C03) is also broken when the call returns at the
     # right read but with another index / occurrence than the naive search: those clauses belong to C02 and C03
-    also = {'C03': ('C02:index', 'C02:after', 'C02:before-does-not-end-at-occurrence', 'C02:reported-match-not-found-by-naive-search')}
+    also = {'C03': ('C02:index', 'C02:after', 'C02:before-does-not-end-at-occurrence', 'C02:reported-match-not-found-by-naive-search'),
+            # "an occurrence already present in the searchable pending text always wins over EOF/TIMEOUT" (C04): the contract
+            # found a match, the call reported EOF / TIMEOUT instead
+            'C04': ('C03:missed-match-contract-found-one',)}
     for t in uniq:
         v, at = verdicts[t['id']]
         if v != 'ok' and v.startswith(pid + ':'):
             ctx.fail(v, {'meta': t['meta']}, detail={'event_index': at, 'events': t['ev'][:at]},
                      signature=signature_of(t, v))
         elif v in also.get(pid, ()):
-            ctx.fail('%s:outcome-differs-from-naive-search(%s)' % (pid, v), {'meta': t['meta']},
+            ctx.fail(('%s:outcome-differs-from-naive-search(%s)' if pid == 'C03' else '%s:occurrence-in-pending-text-lost-to-eof-or-timeout(%s)') % (pid, v), {'meta': t['meta']},
                      detail={'event_index': at, 'events': t['ev'][:at]}, signature=signature_of(t, v))
     status, nviol, nknown = common.conclude(ctx)
     samples = [{'meta': t['meta'], 'events': t['ev'], 'verdict': verdicts[t['id']][0]}
